@@ -100,6 +100,18 @@ func VHarness_C06_filter_id() {
 func VHarness_C06_truncation() {
 	n := VBound("N", 3)
 	vWorldSetup(n, true)
+	vC06Truncation(n)
+}
+
+// VHarness_C06_truncation_chain: the same relation one operation deeper on chain-shaped histories
+// (create followed by update / recover operations only).
+func VHarness_C06_truncation_chain() {
+	n := VBound("N", 4)
+	vWorldSetupTypes(n, true, 1, 2)
+	vC06Truncation(n)
+}
+
+func vC06Truncation(n int) {
 	var ops []*operation.AnchoredOperation
 	for i, r := range vW.recs {
 		// anchoring order is fixed by the (distinct) transaction times; transaction numbers are arbitrary
